@@ -28,11 +28,28 @@ func (p *FaultPlan) hit(method string) bool {
 	p.mu.Lock()
 	defer p.mu.Unlock()
 	p.Counts[method]++
+	if p.Method == "*mut" && (method == "Remove" || method == "RemoveAll" || method == "MkdirAll" || method == "Writer") {
+		// the K-th MUTATING call, whatever its method
+		p.Counts["*mut"]++
+		if p.Counts["*mut"] == p.K {
+			p.Fired = true
+			return true
+		}
+		return false
+	}
 	if method == p.Method && p.Counts[method] == p.K {
 		p.Fired = true
 		return true
 	}
 	return false
+}
+
+// Arm resets the counters and sets a new fault position.
+func (p *FaultPlan) Arm(method string, k int) {
+	p.mu.Lock()
+	defer p.mu.Unlock()
+	p.Counts = map[string]int{}
+	p.Method, p.K, p.Fired = method, k, false
 }
 
 // Snapshot returns a copy of the call counters.
